@@ -326,7 +326,7 @@ func (e *Engine) load(st *state, addr *Val, t types.Type) *Val {
 	if root != nil && root.Op == "alloc" {
 		// a struct made on this path whose fields were stored one by one, read as a whole (copied, captured by a
 		// method value …): the aggregate of what its fields hold
-		if sv, isStruct := t.Underlying().(*types.Struct); isStruct && sv.NumFields() > 0 && sv.NumFields() <= 16 {
+		if sv, isStruct := t.Underlying().(*types.Struct); isStruct && sv.NumFields() > 0 && sv.NumFields() <= 96 {
 			any := false
 			agg := &Val{Op: "struct", Type: t}
 			for i := 0; i < sv.NumFields(); i++ {
@@ -1336,10 +1336,50 @@ func (e *Engine) tripCount(h *ssa.BasicBlock, ifr *frame, lc *loopCtx, iters []*
 		return unknown, ""
 	}
 	bo, ok := iff.Cond.(*ssa.BinOp)
-	if !ok || (bo.Op != token.LSS && bo.Op != token.GTR && bo.Op != token.LEQ && bo.Op != token.GEQ) || !lc.body[h.Succs[0]] || lc.body[h.Succs[1]] {
+	if ok && bo.Op == token.EQL && !lc.body[h.Succs[0]] && lc.body[h.Succs[1]] {
+		// `for { if i == n { break }; … }`: continues while i != n
+		c := e.val(ifr, bo)
+		if c.Op == "binop" && c.Name == "==" && len(c.Args) == 2 {
+			return e.tripCountOf(&Val{Op: "binop", Name: "!=", Args: c.Args, Type: c.Type}, bo, h, ifr, lc, iters, unknown)
+		}
 		return unknown, ""
 	}
-	c := e.val(ifr, bo)
+	if !ok || (bo.Op != token.LSS && bo.Op != token.GTR && bo.Op != token.LEQ && bo.Op != token.GEQ && bo.Op != token.NEQ) || !lc.body[h.Succs[0]] || lc.body[h.Succs[1]] {
+		return unknown, ""
+	}
+	return e.tripCountOf(e.val(ifr, bo), bo, h, ifr, lc, iters, unknown)
+}
+
+func (e *Engine) tripCountOf(c *Val, bo *ssa.BinOp, h *ssa.BasicBlock, ifr *frame, lc *loopCtx, iters []*Arm, unknown *Val) (*Val, string) {
+	if c.Op == "binop" && c.Name == "!=" && len(c.Args) == 2 {
+		// `for i := 0; i != n; i++` with n of an unsigned type (or a length): i climbs from 0 and meets n before anything
+		// else – the same loop as `i < n`
+		lv, n := stripCT(c.Args[0]), c.Args[1]
+		okN := false
+		if n.Type != nil {
+			if bt, isB := n.Type.Underlying().(*types.Basic); isB && bt.Info()&types.IsUnsigned != 0 {
+				okN = true
+			}
+		}
+		if sn := stripCT(n); sn.Op == "len" || sn.Op == "buflen" {
+			okN = true
+		}
+		if lo, _, okR := typeRangeOf(n); okR && constant.Sign(lo) >= 0 {
+			okN = true
+		}
+		fromZero := lv.Op == "loopvar" && lv.ID == lc.id && len(lv.Args) == 1 && isZero(lv.Args[0])
+		// … or the length of the slice being built, which starts empty (`for { if len(items) == n { break } … append }`)
+		if lv.Op == "len" && len(lv.Args) == 1 {
+			if sl := stripCT(lv.Args[0]); sl.Op == "loopvar" && sl.ID == lc.id && len(sl.Args) == 1 {
+				if l0, isC := affOf(mkLen(sl.Args[0])).IsConst(); isC && l0 == 0 {
+					fromZero = true
+				}
+			}
+		}
+		if fromZero && okN && !n.Contains(func(v *Val) bool { return v.Op == "loopvar" && v.ID == lc.id }) {
+			c = &Val{Op: "binop", Name: "<", Args: c.Args, Type: c.Type}
+		}
+	}
 	if c.Op != "binop" || (c.Name != "<" && c.Name != ">" && c.Name != "<=" && c.Name != ">=") {
 		return unknown, ""
 	}
